@@ -39,6 +39,10 @@ def check(prog, rep):
     bucket_insert(prog, rep)
     check_no_rollback(prog, rep)
     count_source(prog, rep)
+    # the operations reach the backends through Bucket: every one of them is handed on, with the caller's arguments
+    from ..rules_wrap import wrapper_rules
+
+    wrapper_rules(prog, rep)
     # observation only: single insert of an id-bearing event differs between backends
     rep.note("sibling cross-check (observation, not a rule): a single insert of an id-bearing event is an upsert in memory and peewee but a plain INSERT that ignores the id in sqlite; the property speaks of bulk upsert only")
 
@@ -48,6 +52,7 @@ PW = "aw_datastore/storages/peewee.py"
 ME = "aw_datastore/storages/memory.py"
 AB = "aw_datastore/storages/abstract.py"
 VARIANTS = [
+    ("B Bucket.delete returns early for a falsy id (0 is the first id of the memory store)", "aw_datastore/datastore.py", "    def delete(self, event_id):\n", "    def delete(self, event_id):\n        if not event_id:\n            return False\n", "WRAP"),
     ("B sqlite replace_last by max(endtime) equality (original defect)", SQ, "                        SELECT id FROM events\n                        WHERE bucketrow = (SELECT rowid FROM buckets WHERE id = ?)\n                        ORDER BY starttime DESC, id DESC LIMIT 1)\"\"\"", "                        SELECT id FROM events WHERE endtime =\n                            (SELECT max(endtime) FROM events WHERE bucketrow =\n                                (SELECT rowid FROM buckets WHERE id = ?) LIMIT 1))\"\"\"", ["LAST", "SCOPE"]),
     ("B sqlite replace_last ordered by id", SQ, "                        ORDER BY starttime DESC, id DESC LIMIT 1)\"\"\"", "                        ORDER BY id DESC LIMIT 1)\"\"\"", "LAST"),
     ("B sqlite replace_last without LIMIT", SQ, "                        ORDER BY starttime DESC, id DESC LIMIT 1)\"\"\"", "                        ORDER BY starttime DESC, id DESC)\"\"\"", "LAST"),
